@@ -35,6 +35,20 @@ def run(chk: core.Check, tier: str, seed: int) -> None:
         ed = core.enc_value(d)
         for t in (FIXED_TAILS if tier != "quick" else rng.sample(FIXED_TAILS, 14)):
             recs.append(impl.rec_find(jp, "$" + t, d, paths=True, edoc=ed))
+    # every nasty member name in every spelling a string literal allows (raw, two-character escapes, \uXXXX
+    # in both hex cases, surrogate-pair escapes), alone and followed / preceded by other characters
+    sp2 = gen.Speller(rng, 2)
+    for name in gen.NASTY_NAMES + ["x😀", "😀", "a\u0000b", "\ud7ff\ue000"]:
+        d = {name: 1, name + "x": 2, "x" + name: 3, "z": {name: [4]}}
+        ed = core.enc_value(d)
+        spellings = {sp2.string(name) for _ in range(8)}
+        q = "'"
+        spellings.add(q + "".join(f"\\u{ord(c):04x}" if ord(c) < 0x10000 else
+                                  f"\\u{0xD800 + ((ord(c) - 0x10000) >> 10):04X}\\u{0xDC00 + ((ord(c) - 0x10000) & 0x3FF):04x}"
+                                  for c in name) + q)
+        for lit in spellings:
+            for t in (f"[{lit}]", f"[{lit[0]}x{lit[1:]}]", f"[{lit[:-1]}x{lit[-1]}]", f"..[{lit}]", f".z[{lit}, {lit}][0]"):
+                recs.append(impl.rec_find(jp, "$" + t, d, paths=True, edoc=ed))
     n_fixed = len(recs)
     # (2) seeded random queries over deeper documents, plain and nasty names
     n_rand = 6000 if tier == "quick" else 120000
